@@ -30,4 +30,9 @@ def jobs(tier):
     import importlib.util, os
     sp = importlib.util.spec_from_file_location("vfjobs_x_C11", os.path.join(os.path.dirname(__file__), "C11.py")); m = importlib.util.module_from_spec(sp); m.Job = Job; sp.loader.exec_module(m)
     lj = m.loader_job(1, "C15.fd_count", skip_findings=True); lj.name = "loader.fd_count.F1"; J.append(lj)
+    # sender side: the descriptor duplicated by dbus_message_iter_append_basic is accounted to the message on every path (same job as C14.append; F24 is reported there)
+    sp14 = importlib.util.spec_from_file_location("vfjobs_x_C14", os.path.join(os.path.dirname(__file__), "C14.py")); m14 = importlib.util.module_from_spec(sp14); m14.Job = Job; sp14.loader.exec_module(m14)
+    for j in m14.jobs(tier):
+        if j.name == "append.unix_fd": j.group = "C15.append"; j.defines = dict(j.defines, VF_SKIP_FINDINGS=1); J.append(j)
+        if j.name.startswith("copy.fds") and j.name != "copy.fds0": j.group = "C15.copy"; J.append(j)
     return J
